@@ -235,7 +235,7 @@ def run_C13(ctx, R):
     def minify_loops(units, r):
         u = units['cJSON.c']
         parse.bnd6(units, r, functions=[u.fn(n) for n in bnd3.MINIFY])
-        r.floor('BND6', 'loops in the minify family', len(r.obs), 4)
+        r.floor('BND6', 'loops in the minify family', len(r.obs), 1)
 
     def minify_out(units, r):
         tmp = Results(config=r.config)
